@@ -124,7 +124,7 @@ theorem nextToken_eof_val {b : Bytes} {s s' : LexState} {t : Token}
 def GoodErr (n : Nat) : PErr → Prop
   | .lex e => IsFail n e
   | .fail p k => p ≤ n ∨ k = .fbrace     -- the f-string brace error is reported relative to the token
-  | .runtime s => s = 0 ∧ C19.concatGuardsBareFString = false   -- only the unrepaired concatStrings
+  | .runtime s => s = 0 ∧ (C19.concatGuardsBareFString = false ∨ C19.concatGuardsBothFString = false)   -- only an unguarded concatStrings
   | .outOfFuel => False
 
 /-- `m` run from `l` fails well or ends in a state satisfying `Q`. -/
@@ -423,9 +423,10 @@ theorem fstringVars_ok (fuel : Nat) : ∀ (s : List UInt8) (pos cnt : Nat), s.le
 theorem concat_good {k1 k2 : VKind} (h1 : k1 ≠ .other) (h2 : k2 ≠ .other) :
     match concatKinds k1 k2 with
     | .ok r => r ≠ .other
-    | .error e => e = .runtime 0 ∧ C19.concatGuardsBareFString = false := by
+    | .error e => e = .runtime 0 ∧ (C19.concatGuardsBareFString = false ∨ C19.concatGuardsBothFString = false) := by
   unfold concatKinds
   generalize C19.concatGuardsBareFString = g
+  generalize C19.concatGuardsBothFString = g2
   cases k1 with
   | other => exact absurd rfl h1
   | plain =>
@@ -435,13 +436,20 @@ theorem concat_good {k1 k2 : VKind} (h1 : k1 ≠ .other) (h2 : k2 ≠ .other) :
     | fstr v =>
       simp only [concatKindsWith]
       by_cases hv : v = 0 ∧ g = false
-      · rw [if_pos hv]; exact ⟨rfl, hv.2⟩
+      · rw [if_pos hv]; exact ⟨rfl, Or.inl hv.2⟩
       · rw [if_neg hv]; simp
   | fstr m =>
     cases k2 with
     | other => exact absurd rfl h2
     | plain => simp [concatKindsWith]
-    | fstr v => simp only [concatKindsWith]; split <;> simp
+    | fstr v =>
+      simp only [concatKindsWith]
+      by_cases hv : v = 0
+      · rw [if_pos hv]
+        cases g2 with
+        | true => simp
+        | false => exact ⟨rfl, Or.inr rfl⟩
+      · rw [if_neg hv]; simp
 
 theorem isOperator_ne {v : Bytes} (h : isOperator v = true) : v ≠ #[] := by
   intro hv; subst hv; revert h; decide
